@@ -26,7 +26,7 @@ func init() {
 			}
 			tablesUsed := func(f *core.FuncInfo) []string {
 				set := map[string]bool{}
-				ast.Inspect(f.Body(), func(x ast.Node) bool {
+				core.InspectBody(f, func(x ast.Node) bool {
 					if id, ok := x.(*ast.Ident); ok {
 						if t, ok := tableObjs[f.Info().Uses[id]]; ok {
 							set[t] = true
@@ -93,7 +93,7 @@ func init() {
 				for _, f := range r.W.AllFuncs(pkg) {
 					c := f.Ctx()
 					var calls []*ast.CallExpr
-					ast.Inspect(f.Body(), func(x ast.Node) bool {
+					core.InspectBody(f, func(x ast.Node) bool {
 						if call, ok := x.(*ast.CallExpr); ok {
 							if fn := core.Callee(c.Info, call); fn != nil && core.ShortName(fn) == "net.IP.String" {
 								calls = append(calls, call)
